@@ -134,6 +134,39 @@ def outputs_cases(ctx, thorough):
         ctx.bump("outputs")
 
 
+def timeout_cases(ctx, thorough):
+    """a child that writes and then hangs past the limit: what it wrote before the kill is searched, identically in both modes"""
+    from lithium.interestingness import diff_test, outputs
+
+    child = child_path()
+    cases = [(b"line A\nline B\n", b"", False, "line B", True), (b"", b"multi\nline\n", True, "^line$", True),
+             (b"abc", b"", False, "abd", False)]
+    for out, err, rgx, srch, want in cases if thorough else cases[:2]:
+        spec = f"T:{out.hex()}:{err.hex()}"
+        for mode in ("mem", "file"):
+            prefix = None if mode == "mem" else str(loaders.scratch() / "c19-tmo")
+            case = dict(test="outputs", timeout=True, regex=rgx, search=srch, out=enc_bytes(out), err=enc_bytes(err), mode=mode)
+            try:
+                with contextlib.redirect_stdout(io.StringIO()):
+                    v = bool(outputs.interesting(["-t", "1"] + (["--regex"] if rgx else []) + ["-s", srch, child, spec], prefix))
+            except Exception as exc:  # pylint: disable=broad-except
+                ctx.fail("outputs-raises", f"outputs raised {type(exc).__name__}: {exc}", case)
+                continue
+            ctx.evaluations += 1
+            ctx.bump("outputs-timeout")
+            if v != want:
+                ctx.fail("outputs-verdict", f"outputs ({mode}) = {v}, expected {want}: the child wrote out={out!r} err={err!r} and then hung past the "
+                         f"time limit; search {srch!r} regex={rgx}", case)
+    if thorough:
+        for mode in ("mem", "file"):
+            prefix = None if mode == "mem" else str(loaders.scratch() / "c19-tmo")
+            v = bool(diff_test.interesting(["-t", "1", "-a", "T:78:", "-b", "T:79:", child], prefix))
+            ctx.evaluations += 1
+            if not v:
+                ctx.fail("diff-verdict", f"diff_test ({mode}): two timed-out runs with different stdout reported as no difference",
+                         dict(test="diff_test", a="T:78:", b="T:79:", mode=mode))
+
+
 def diff_cases(ctx, thorough):
     from lithium.interestingness import diff_test
 
@@ -234,6 +267,7 @@ def repeat_cases(ctx, thorough):
 def run(ctx) -> int:
     proof = common.proof_stage(ctx.pid)
     outputs_cases(ctx, ctx.thorough)
+    timeout_cases(ctx, ctx.thorough)
     big_outputs(ctx)
     diff_cases(ctx, ctx.thorough)
     repeat_cases(ctx, ctx.thorough)
